@@ -50,6 +50,7 @@ type Ctx struct {
 	canon          *canonStats
 	ephemeral      map[string]bool
 	constTables    map[*ssa.Global]bool
+	splitTests map[string]splitTest
 	xIndex         int // which execution site of the commands the run-loop model is built around (see runSites)
 	tableCallsDone bool
 	tableCallSites []string
